@@ -129,6 +129,54 @@ static void golden(const Family& f, Report& rep, const Config& cfg) {
   rep.outcome("golden|" + f.name);
 }
 
+// ---------- (3b) documented format variants that this tree does not write itself but must keep reading ----------
+// Built by hand from the layout documentation: encodings produced by other implementations or earlier releases.
+static void format_variants(Report& rep, const Config& cfg) {
+  using namespace datasketches; size_t n = 0;
+  { // frequent items: an empty sketch is marked by flag bit 0 (early C++), bit 2 (Java) or both (current C++)
+    const uint8_t flags[] = {0x01, 0x04, 0x05};
+    for (int fi = 0; fi < 3; ++fi) for (int lg = 3; lg <= 6; lg += 3) {
+      std::string h = "frequent_items/empty/flags" + str((int)flags[fi]) + "/lgmax" + str(lg);
+      if (!cfg.replay_history.empty() && cfg.replay_history != h) continue;
+      if (!journal("format-variants", h)) continue;
+      Ctx c(rep, "format-variants", h);
+      const uint8_t img[8] = {1, 1, 10, (uint8_t)lg, 3, flags[fi], 0, 0};   // preamble longs 1, serial version 1, family 10, lg max, lg cur, flags
+      for (int path = 0; path < 2; ++path) {
+        try { std::istringstream is(std::string((const char*)img, 8));
+          frequent_items_sketch<int64_t> sk = path ? frequent_items_sketch<int64_t>::deserialize(is) : frequent_items_sketch<int64_t>::deserialize(img, 8);
+          c.ok("fi-empty-variant-reads-as-empty", sk.is_empty() && sk.get_total_weight() == 0 && sk.get_num_active_items() == 0, "not empty");
+          c.near("fi-empty-variant-epsilon", sk.get_epsilon(), 3.5 / (1 << lg), 1e-12);
+        } catch (const std::exception& e) { c.fail("fi-empty-variant-readable", std::string(path ? "stream: " : "bytes: ") + e.what()); }
+      }
+      rep.flush_ctx_fails(c.fails, "format-variants", h); ++n;
+    }
+  }
+  { // theta: the empty compact sketch of serial version 3 with and without the ordered / read-only flags other writers set
+    const uint8_t flags[] = {0x0c, 0x0e, 0x1e, 0x1c};   // empty|compact, +read-only, +ordered
+    for (int fi = 0; fi < 4; ++fi) {
+      std::string h = "theta/empty-v3/flags" + str((int)flags[fi]);
+      if (!cfg.replay_history.empty() && cfg.replay_history != h) continue;
+      if (!journal("format-variants", h)) continue;
+      Ctx c(rep, "format-variants", h);
+      const uint16_t sh = oracle::seed_hash(DEFAULT_SEED);
+      const uint8_t img[8] = {1, 3, 3, 0, 0, flags[fi], (uint8_t)(sh & 0xff), (uint8_t)(sh >> 8)};
+      for (int path = 0; path < 3; ++path) {
+        try { std::istringstream is(std::string((const char*)img, 8)); bool empty; uint64_t theta; uint32_t nret;
+          if (path == 0) { compact_theta_sketch sk = compact_theta_sketch::deserialize(img, 8); empty = sk.is_empty(); theta = sk.get_theta64(); nret = sk.get_num_retained(); }
+          else if (path == 1) { compact_theta_sketch sk = compact_theta_sketch::deserialize(is); empty = sk.is_empty(); theta = sk.get_theta64(); nret = sk.get_num_retained(); }
+          else { wrapped_compact_theta_sketch sk = wrapped_compact_theta_sketch::wrap(img, 8); empty = sk.is_empty(); theta = sk.get_theta64(); nret = sk.get_num_retained(); }
+          c.ok("theta-empty-variant-reads-as-empty", empty && nret == 0 && theta == theta_constants::MAX_THETA, "not the empty sketch");
+        } catch (const std::exception& e) { c.fail("theta-empty-variant-readable", std::string(path == 0 ? "bytes: " : path == 1 ? "stream: " : "wrap: ") + e.what()); }
+      }
+      rep.flush_ctx_fails(c.fails, "format-variants", h); ++n;
+    }
+  }
+  journal_clear();
+  rep.evaluations += n; rep.states += n; rep.transitions += n; rep.traces += n;
+  rep.scenarios.push_back("format-variants: hand-built documented encodings read=" + str(n));
+  rep.outcome("format-variants");
+}
+
 // ---------- (4) documented-layout decoders over the corpus ----------
 static void decode_corpus(const Family& f, Report& rep, const Config& cfg) {
   dec::DecoderFn fn = dec::find(f.name);
@@ -167,6 +215,7 @@ int main(int argc, char** argv) {
       rep.sets("rule", "complete enumeration of hash inputs (len 0..80 x 8 seeds x 4 patterns), of the golden corpus, of the shipped reference images and of the corpus states for each documented layout; distinct = (part, family) tag");
     }; tasks.push_back(t); }
   { Task t; t.name = "legacy"; t.fn = [&cfg](Report& rep) { dec::legacy_images(rep, cfg); }; tasks.push_back(t); }
+  { Task t; t.name = "format-variants"; t.fn = [&cfg](Report& rep) { if (!cfg.replay_scenario.empty() && cfg.replay_scenario != "format-variants") return; format_variants(rep, cfg); }; tasks.push_back(t); }
   { Task t; t.name = "legacy-layout"; t.fn = [&cfg](Report& rep) { dec::legacy_more(rep, cfg); }; tasks.push_back(t); }
   for (size_t i = 0; i < registry().size(); ++i) {
     const Family f = registry()[i];
